@@ -238,3 +238,11 @@ From XcpProofs Require Import XExtents.
 Theorem C01_src_map_extents_loop : forall fuel fiemap, x_map_extents fuel fiemap = map_extents fuel fiemap.
 Proof. exact x_map_extents_ok. Qed.
 Print Assumptions C01_src_map_extents_loop.
+
+(* ---- the destination's parent directory is missing: refused for every source kind whose creating call cannot make the
+   ancestors (a failed step, never `the source vanished`); compared with the binary on every run ---- *)
+From XcpModel Require Import DestMatrix.
+From XcpProofs Require Import DestMatrixProofs.
+Theorem C01_parent_missing_refused_unless_directory : forall s, s <> SDir -> parent_missing_outcome s = Refused.
+Proof. exact parent_missing_refused_unless_directory. Qed.
+Print Assumptions C01_parent_missing_refused_unless_directory.
